@@ -68,6 +68,9 @@ type c18Case struct {
 	// SmallWin (client role): the handshake allows 65536-byte frames but a 10000-byte stream window, and the
 	// body is 100000 bytes: most of the upload is still waiting for credit when the SETTINGS frames arrive
 	SmallWin bool `json:"small_window_big_frames,omitempty"`
+	// GoAway (client role): before the first SETTINGS frame the server sends GOAWAY(NO_ERROR) covering the stream
+	// in flight, which therefore carries on: the limits still govern what is sent on it
+	GoAway bool `json:"goaway_covering_first,omitempty"`
 	// BigTable (client role): the server's first SETTINGS advertises HEADER_TABLE_SIZE=8192
 	BigTable bool `json:"handshake_table_8192,omitempty"`
 	// Status (server role): the status the handlers answer with (0: 200). One outside the static table (302) is the
@@ -463,6 +466,7 @@ func c18Client(cs c18Case) (*fw.Violation, *harness.Client) {
 		}
 		return nil
 	}
+	goAwaySent := false
 	sendSettings := func(idx []int) *fw.Violation {
 		if srv == nil {
 			return nil
@@ -486,6 +490,10 @@ func c18Client(cs c18Case) (*fw.Violation, *harness.Client) {
 			}
 		}
 		name := strings.Join(names, " | ")
+		if cs.GoAway && !goAwaySent && len(srv.Order) > 0 {
+			goAwaySent = true
+			h.Send(0, peer.GoAway(srv.Order[len(srv.Order)-1], 0, ""))
+		}
 		h.Send(0, frames...)
 		if bad != nil {
 			dead = true
@@ -831,6 +839,17 @@ func runC18(c *fw.Ctx) {
 		for a := range c18Alphabet {
 			for pa := 0; pa < npos; pa++ {
 				do(c18Case{Role: "client", Settings: []int{a}, At: []int{pa}, BigBody: true, Two: two, SmallWin: true})
+			}
+		}
+		if !two {
+			// the same with a graceful GOAWAY in front: the upload it covers carries on under the new limits
+			for a := range c18Alphabet {
+				if c18Alphabet[a].Invalid != 0 {
+					continue
+				}
+				for pa := 1; pa < npos; pa++ {
+					do(c18Case{Role: "client", Settings: []int{a}, At: []int{pa}, BigBody: true, SmallWin: true, GoAway: true})
+				}
 			}
 		}
 		for pa := 0; pa < npos; pa++ {
